@@ -132,11 +132,15 @@ def _raw(obj):
 # ---------------------------------------------------------------------------------------------
 
 def mini_model(prov, req, inj, mc):
-    events = [['Claim', 'in', ['Res'], []], ['Release', 'in', ['void'], []], ['Ev', 'in', ['void'], []],
-              ['Ov', 'out', ['void'], []]]
+    # several same-direction formals per event: anything that collects formal names in a set shows up in the
+    # real hash-seed runs
+    fin = [['alpha', ['T'], 'in'], ['beta', ['T'], 'in'], ['gamma', ['T'], 'in'], ['delta', ['T'], 'out']]
+    events = [['Claim', 'in', ['Res'], fin[:2]], ['Release', 'in', ['void'], fin[1:3]], ['Ev', 'in', ['void'], fin],
+              ['Ov', 'out', ['void'], fin[:3]], ['Ow', 'out', ['void'], [fin[2], fin[0]]]]
     ports = [[n, ['I'], 'provides', False] for n in prov] + [[n, ['I'], 'requires', False] for n in req] + \
             [[n, ['I'], 'requires', True] for n in inj]
-    doc = [['ns', ['N'], [['interface', 'I', [['enum', 'Res', ['Ok', 'No']]], events],
+    doc = [['extern', 'T', 'int'],
+           ['ns', ['N'], [['interface', 'I', [['enum', 'Res', ['Ok', 'No']]], events],
                           ['component', 'Comp', ports]]]]
     return {'doc': doc, 'encapsulee': ['N', 'Comp'], 'file': 'M.dzn'}
 
